@@ -53,6 +53,8 @@ func init() {
 		mutation{"found-for-any-client", "tun/server/acme_rpc.go", "		if !bytes.Equal(bundle.GetClientToken().GetToken(), token.GetToken()) ||\n			bundle.GetClientIdentity().GetId() != client.GetId() ||", "		if !bytes.Equal(token.GetToken(), token.GetToken()) ||\n			bundle.GetClientIdentity().GetId() != client.GetId() ||", "checkacme"},
 		mutation{"pow-for-other-subject", "tun/server/acme_rpc.go", "			return hostname\n		},", "			return s.Apex\n		},", "checkacme"},
 		mutation{"record-from-request-token", "tun/server/acme_rpc.go", "	name, content := acme.GenerateCustomRecord(hostname, s.Acme, token.GetToken())\n\n	lookupCtx", "	name, content := acme.GenerateCustomRecord(hostname, s.Acme, req.GetProof().GetPubKey())\n\n	lookupCtx", "bind-provenance"},
+		mutation{"zones-label-aligned", "tun/server/acme_rpc.go", "	if strings.Contains(hostname, s.Acme) || strings.Contains(hostname, s.Apex) {", "	if hostname == s.Acme || strings.HasSuffix(hostname, \".\"+s.Acme) || hostname == s.Apex || strings.HasSuffix(hostname, \".\"+s.Apex) {", "!checkacme"},
+		mutation{"zones-label-aligned-zone-itself-passes", "tun/server/acme_rpc.go", "	if strings.Contains(hostname, s.Acme) || strings.Contains(hostname, s.Apex) {", "	if strings.HasSuffix(hostname, \".\"+s.Acme) || strings.HasSuffix(hostname, \".\"+s.Apex) {", "checkacme"},
 		mutation{"apex-check-dropped", "tun/server/acme_rpc.go", "	if strings.Contains(hostname, s.Acme) || strings.Contains(hostname, s.Apex) {", "	if strings.Contains(hostname, s.Acme) {", "checkacme"},
 	)
 	addSelfTests("C30",
@@ -840,11 +842,37 @@ func runC29(c *Ctx) {
 	}
 	sr := successReturns(ca)
 	c.Floor("checkAcme success returns", len(sr), 2)
+	// "the hostname is outside zone": the substring test, or the label-aligned pair
+	// (hostname != zone and no "."+zone suffix) - both keep the zone itself and every name
+	// below it out
 	containsOf := func(field string) factReq {
-		return factReq{"!Contains(hostname, s." + field + ")", func(g *Fn, fs *FactSet) bool {
-			return fs.Has(func(fa *Fact) bool {
-				return fa.Kind == FFalse && g.IsCall(fa.Call, "strings.Contains") && g.Prov(fa.Call.Args[0]) == "param#1" && g.Prov(fa.Call.Args[1]) == "recv."+field
+		return factReq{"hostname outside s." + field + " (!Contains, or != zone && !HasSuffix \".\"+zone)", func(g *Fn, fs *FactSet) bool {
+			zone := "recv." + field
+			if fs.Has(func(fa *Fact) bool {
+				return fa.Kind == FFalse && g.IsCall(fa.Call, "strings.Contains") && g.Prov(fa.Call.Args[0]) == "param#1" && g.Prov(fa.Call.Args[1]) == zone
+			}) {
+				return true
+			}
+			notEq := fs.Cmp(func(e, tag ast.Expr, truth bool, fa *Fact) bool {
+				be, ok := e.(*ast.BinaryExpr)
+				if !ok || tag != nil || !(be.Op == token.EQL && !truth || be.Op == token.NEQ && truth) {
+					return false
+				}
+				l, r := g.Prov(be.X), g.Prov(be.Y)
+				return l == "param#1" && r == zone || r == "param#1" && l == zone
 			})
+			notBelow := fs.Has(func(fa *Fact) bool {
+				if fa.Kind != FFalse || !g.IsCall(fa.Call, "strings.HasSuffix") || g.Prov(fa.Call.Args[0]) != "param#1" {
+					return false
+				}
+				be, ok := ast.Unparen(fa.Call.Args[1]).(*ast.BinaryExpr)
+				if !ok || be.Op != token.ADD {
+					return false
+				}
+				dot, _ := g.ConstVal(be.X)
+				return dot == "\".\"" && g.Prov(be.Y) == zone
+			})
+			return notEq && notBelow
 		}}
 	}
 	for _, r := range sr {
